@@ -6,7 +6,7 @@ import ast
 import re
 
 from ..cfg import cfg_of
-from ..core import AnalysisError, call_name, unparse, walk_no_nested
+from ..core import seq, AnalysisError, call_name, unparse, walk_no_nested
 from ..pattern import _parse, body_is, find, find_expr, has, has_expr, m_node
 from ..report import Ctx
 
@@ -45,7 +45,7 @@ def run(ctx: Ctx) -> None:
     ok = m is not None
     if ok:
         kdef, ndef = asg.get(m.group(1)), asg.get(m.group(2))
-        ok = kdef is not None and ndef is not None and unparse(kdef.value) == f'{st}.sample_size' and unparse(ndef.value) == f'len({st}.subset)' and kdef.lineno < lpdef.lineno and ndef.lineno < lpdef.lineno
+        ok = kdef is not None and ndef is not None and unparse(kdef.value) == f'{st}.sample_size' and unparse(ndef.value) == f'len({st}.subset)' and seq(kdef) < seq(lpdef) and seq(ndef) < seq(lpdef)
     ctx.add('C19.R1', 'sample_alternatives:correction', ok, (f.file, lpdef.lineno), f'{lpv} = ln(requested size) - ln(stratum size)' if ok else f'correction term: {unparse(lpdef.value)} is not ln(stratum.sample_size) - ln(len(stratum.subset))', unparse(lpdef.value))
     kname = m.group(1) if m else 'sample_size'
     chosen_if = [s for s in body if isinstance(s, ast.If) and unparse(s.test) == f'chosen in {st}.subset']
@@ -57,7 +57,7 @@ def run(ctx: Ctx) -> None:
         det = ' ; '.join(bt)
         subset_copy = next((k for k, s in asg.items() if 'deepcopy' in unparse(s.value) or unparse(s.value) in (f'set({st}.subset)', f'{st}.subset.copy()')), None)
         ok = subset_copy is not None and f'{subset_copy}.discard(chosen)' in bt and f'{kname} -= 1' in bt and f'{CH}[LOG_PROBA_COL] = {lpv}' in bt
-        ok = ok and ci.lineno > lpdef.lineno
+        ok = ok and seq(ci) > seq(lpdef)
     ctx.add('C19.R1', 'sample_alternatives:chosen', ok, (f.file, chosen_if[0].lineno if chosen_if else lp.lineno),
             'inside its own stratum the chosen alternative is set aside, one draw less is requested and it receives the correction of that stratum, computed before the decrement' if ok
             else f'handling of the chosen alternative: {det or "no `if chosen in stratum.subset` in the stratum loop"}', det)
@@ -73,7 +73,7 @@ def run(ctx: Ctx) -> None:
         ok = kw.get('n') == kname and kw.get('replace') == 'False' and sdef is not None and re.fullmatch(r'self\.alternatives\[self\.alternatives\[self\.id_column\]\.isin\((\w+)\)\]', unparse(sdef.value)) is not None
         if ok:
             ids = re.fullmatch(r'self\.alternatives\[self\.alternatives\[self\.id_column\]\.isin\((\w+)\)\]', unparse(sdef.value)).group(1)
-            ok = ids in asg and sdef.lineno > chosen_if[0].lineno and smp[0].lineno > chosen_if[0].lineno
+            ok = ids in asg and seq(sdef) > seq(chosen_if[0]) and seq(smp[0]) > seq(chosen_if[0])
     ctx.add('C19.R1', 'sample_alternatives:draw', ok, (f.file, smp[0].lineno if smp else lp.lineno), 'k (or k-1) alternatives are drawn without replacement among the ids of the stratum, after the chosen one was set aside' if ok else 'the draw inside a stratum changed', 'draw')
     sw = [s for s in body if isinstance(s, ast.Assign) and unparse(s.targets[0]).endswith('[LOG_PROBA_COL]') and unparse(s.targets[0]) != f'{CH}[LOG_PROBA_COL]']
     ok = len(sw) == 1 and unparse(sw[0].value) == lpv
